@@ -26,8 +26,11 @@ func runC03(ctx *Ctx) {
 		t := t
 		ctx.CheckRapid(string(t.Name), n, func(rt *rapid.T) *Case {
 			cfg := ctx.streamCfg(rapid.IntRange(0, 2).Draw(rt, "unknown") == 0, false)
-			if rapid.IntRange(0, 5).Draw(rt, "mapheavy") == 0 {
+			switch rapid.IntRange(0, 7).Draw(rt, "bias") {
+			case 0:
 				cfg.MapBurst = 6
+			case 1:
+				cfg.ListBurst = 40
 			}
 			b := cfg.GenStream(rt, t.Desc, 0)
 			ctx.MergeExcluded(cfg.Excluded)
@@ -93,7 +96,7 @@ func checkC03(ctx *Ctx, c *Case) error {
 		got := canonI(p)
 		if got != want {
 			// third voice: only alarm when the two references agree
-			if ip, ierr := implDecode(t, b); ierr == nil && canonI(ip) != want && !nestedPulsar(t) {
+			if ip, ierr := implDecode(t, b); ierr == nil && canonI(ip) != want {
 				ctx.Label("references disagree: protoimpl vs dynamicpb decode (not asserted)")
 				return nil
 			}
@@ -170,8 +173,3 @@ func checkC03(ctx *Ctx, c *Case) error {
 	ctx.Label("sub=" + c.Sub)
 	return nil
 }
-
-// nestedPulsar is a placeholder for "third voice is not independent below the
-// top level"; the impl codec delegates nested generated messages to their own
-// methods, so its vote counts at every level only for flat types.
-func nestedPulsar(t *model.Type) bool { return false }
